@@ -32,7 +32,7 @@ UNARY_SELECTORS = ['selecttrue', 'selectfalse', 'selectnone', 'selectnotnone']
 OTHER = ['select-callable', 'select-expr', 'select-field', 'select-multifield', 'biselect', 'facet', 'rowlenselect', 'search', 'search-field',
          'searchcomplement', 'selectusingcontext', 'rowslice', 'head', 'tail', 'skip']
 REQUIRED = (['sel:' + s for s in ORDER_SELECTORS + RANGE_SELECTORS + VALUE_SELECTORS + UNARY_SELECTORS + OTHER] +
-            ['ragged-row-read-as-missing', 'complement', 'reference-value-none', 'reference-value-foreign-type', 'recording-predicate-rows'])
+            ['ragged-row-read-as-missing', 'complement', 'reference-value-none', 'reference-value-foreign-type', 'recording-predicate-rows', 'rows-are-Record-objects'])
 
 TYPES = {'int': int, 'str': str, 'float': float, 'bool': bool, 'NoneType': type(None), 'tuple': tuple, 'bytes': bytes}
 PREDS = {
@@ -159,8 +159,9 @@ def cases(ctx):
         pool = rng.sample(gen.SCALAR_POOL, 4) + [None]
         t = gen.table(rng, nrows=rng.randint(0, 7), nfields=rng.randint(1, 3), pool=pool, ragged=0.3 if rng.random() < 0.5 else 0.0)
         r = i % 6
+        ra = 'records' if rng.random() < 0.2 else None
         if r == 0:
-            yield _mk('select-callable', t, args=[rng.choice(sorted(PREDS))], complement=rng.random() < 0.5, missing=rng.choice([None, 'MISSING']))
+            yield _mk('select-callable', t, args=[rng.choice(sorted(PREDS))], complement=rng.random() < 0.5, missing=rng.choice([None, 'MISSING']), rows_as=ra)
         elif r == 1:
             yield _mk('select-field', t, field=rng.choice(t[0]), args=[rng.choice(sorted(VPREDS))], complement=rng.random() < 0.5,
                       missing=rng.choice([None, 'MISSING']))
@@ -274,6 +275,15 @@ def judge(case, ctx):
     table = copy.deepcopy(case['table'])
     hdr = table[0]
     rows = [tuple(r) for r in table[1:]]
+    if case.get('rows_as') == 'records':
+        # data rows that are already Record objects, made by some other view under another header and another `missing`:
+        # a row predicate reads them by *its* input's header and *its* `missing`.  (Only the row-predicate form: the field
+        # forms index the row object itself, and a Record answers an absent index with its own `missing`; rows that are
+        # Records of a different `missing` are outside what the property's "missing cells" can mean there.)
+        from petl.util.base import Record
+        stale = ['zz%d' % i for i in range(len(hdr))][::-1]
+        table = [hdr] + [Record(r, stale, missing='STALE') for r in rows]
+        ctx.seen('rows-are-Record-objects')
     field, args, comp, missing = case['field'], case['args'], case['complement'], case['missing']
     out = []
     kw = {}
